@@ -44,6 +44,15 @@ def _scores(tier):
     out.append(("notes_on_the_beat_shorter_than_the_beat_followed_by_rests", lambda: G.build_part("P1", 12, notes=[("n0", 0, 6, "C", None, 4, 1, 1), ("n1", 12, 3, "D", None, 4, 1, 1), ("n2", 24, 4, "E", None, 4, 1, 1),
                                                                                                                    ("n3", 36, 12, "F", None, 4, 1, 1), ("n4", 48, 48, "G", None, 4, 1, 1)],
                                                                                                rests=[("r0", 6, 6, 1, 1), ("r1", 15, 9, 1, 1), ("r2", 28, 8, 1, 1)], key=(0, "major"), measures=[(0, 48), (48, 96)])))
+    out.append(("pickup_and_metre_change_in_the_final_bar", lambda: G.build_part("P1", 2, ts=((0, 3, 4), (14, 2, 4)), notes=[("u", 0, 2, "G", None, 4, 1, 1), ("a", 2, 6, "C", None, 5, 1, 1), ("b", 8, 4, "D", None, 5, 1, 1),
+                                                                                                                               ("c", 12, 2, "E", None, 5, 1, 1), ("z", 14, 4, "F", None, 5, 1, 1)],
+                                                                               key=(1, "major"), measures=[(0, 2), (2, 8), (8, 14), (14, 18)])))
+    out.append(("pickup_and_four_four_in_the_final_bar", lambda: G.build_part("P1", 2, ts=((0, 3, 4), (14, 4, 4)), notes=[("u", 0, 2, "G", None, 4, 1, 1), ("a", 2, 6, "C", None, 5, 1, 1), ("b", 8, 6, "D", None, 5, 1, 1),
+                                                                                                                            ("z", 14, 8, "F", None, 5, 1, 1)],
+                                                                            key=(0, "major"), measures=[(0, 2), (2, 8), (8, 14), (14, 22)])))
+    out.append(("double_sharps_and_double_flats", lambda: G.build_part("P1", 4, notes=[("d0", 0, 4, "F", 2, 4, 1, 1), ("d1", 4, 4, "B", -2, 3, 1, 1), ("d2", 8, 4, "C", 2, 5, 1, 1), ("d3", 12, 4, "G", 1, 4, 1, 1),
+                                                                                      ("d4", 16, 8, "F", 2, 3, 1, 1), ("d5", 24, 8, "E", -2, 4, 1, 1)],
+                                                                     graces=[("dg", 16, "A", 2, 4, 1, 1, "d4")], key=(5, "minor"), measures=[(0, 16), (16, 32)])))
     if tier == "thorough":
         out.append(("grace", lambda: G.build_part("P1", 4, notes=[("n0", 0, 8, "C", None, 4, 1, 1), ("n1", 8, 8, "D", None, 4, 1, 1)], graces=[("g0", 8, "E", None, 4, 1, 1, "n1")], measures=[(0, 16)])))
     return out
